@@ -351,12 +351,12 @@ theorem setter_as_translated {F Mat Vec : Type} [DecidableEq F] (Env' : Env F Ma
     cases s.tag <;> cases t <;> rfl
 
 /-- **Who writes what** (attribute writes of the methods, from the AST): `_orb_frame` is set by `Cov.__new__` and carried
-by `__array_finalize__`, and NOT by the `Cov.orb` setter that `sv.cov = c` goes through (`Cov.attach` leaves `orbFrame`
-alone for that reason); `Cov.copy` builds the copy from the private state copy.  With
-proposed_fixes/C14-attach-keeps-orb-frame.diff applied this theorem fails: the model then has to follow (`attachFix`). -/
+by `__array_finalize__`, and — since /repo eca9727 — by the `Cov.orb` setter that `sv.cov = c` goes through, right after
+`_data["orb"]` (`Cov.attach` re-seats `orbFrame` together with the private copy for that reason; before, the list ended at
+`self._data['orb']` and the model was `Cov.attachOld`); `Cov.copy` builds the copy from the private state copy. -/
 theorem writes_as_modelled :
     Generated.CovSetter.newWrites = ["obj._data", "obj._frame", "obj.orb", "obj._orb_frame"] ∧
-    Generated.CovSetter.orbSetterWrites = ["del orb.cov", "self._data['orb']"] ∧
+    Generated.CovSetter.orbSetterWrites = ["del orb.cov", "self._data['orb']", "self._orb_frame"] ∧
     Generated.CovSetter.svCovSetterWrites = ["self._data['cov']", "self._data['cov'].orb"] ∧
     Generated.CovSetter.finalizeWrites = ["self._data", "self._orb_frame"] ∧
     Generated.CovSetter.copyBody = ["new = self.__class__(self.orb, np.array(self), frame=self.frame)",
